@@ -292,7 +292,19 @@ Section Monitors2.
             match reply_of_call cl with
             | RErr => true
             | RResp rep =>
-                if (p_status rep =? 304) then true     (* a freshened entry: C08 *)
+                if (p_status rep =? 304) then
+                  (* a freshened entry (C08); but no field the 304 itself marks hop-by-hop may be taken from it *)
+                  forallb (fun kv =>
+                    negb (in_names (fst kv) (spec_hop_by_hop (p_hdr rep))) ||
+                    match alookup (fst kv) (e_hdr e) with
+                    | Some vs =>
+                        negb (forallb2_eq vs (snd kv)) ||
+                        match stored_ with
+                        | Some s => match alookup (fst kv) (sv_hdr s) with Some vs' => forallb2_eq vs' (snd kv) | None => false end
+                        | None => false
+                        end
+                    | None => true
+                    end) (p_hdr rep)
                 else
                   (e_status e =? p_status rep) &&
                   (e_body e =? (if no_body_status (p_status rep) then -1 else c)) &&
@@ -393,6 +405,13 @@ Section Monitors2.
          | None => match writes with [] => VNa | _ => VOk end
          end.
 
+  Definition last_index_ids (evs : list event) (k : bytes) : option (list bytes) :=
+    fold_left (fun a ev => match ev with
+                           | EvSetRefs k' l => if beq k k' then Some (map (fun r => match r with Some x => r_id x | None => [] end) l) else a
+                           | EvDel k' _ => if beq k k' then None else a
+                           | _ => a end) evs None.
+
+
   (* C07 — after an unsafe request with a 2xx/3xx reply, nothing stored earlier for the target or for a
      same-origin Location / Content-Location URI is served again without validation *)
   Definition invalidating (x : request * exchange_obs) : list url :=
@@ -434,17 +453,22 @@ Section Monitors2.
         if existsb (fun u => uri_equiv u (q_url q)) inv then VBad 1 else
         match inv with [] => VNa | _ => VOk end
     | _, _ =>
-        match invalidating (q, o) with [] => VNa | _ => VOk end
+        match invalidating (q, o) with
+        | [] => VNa
+        | inv =>
+            (* the index of every invalidated URI that was live before this exchange is deleted in it
+               (keys are those of the key function, which C03 ties to the normal form) *)
+            let before := all_events past in
+            let evs := x_events o ++ x_bg_events o in
+            let left_live u :=
+              let k := make_url_key u in
+              match last_index_ids (before ++ evs) k with Some _ => true | None => false end in
+            if existsb left_live inv then VBad 2 else VOk
+        end
     end.
 
   (* C08 — a 304 freshens: merged fields, same body, age restarts (written back with the instants of the
      validation); a full cacheable reply to a validation replaces the entry; other variants stay indexed *)
-  Definition last_index_ids (evs : list event) (k : bytes) : option (list bytes) :=
-    fold_left (fun a ev => match ev with
-                           | EvSetRefs k' l => if beq k k' then Some (map (fun r => match r with Some x => r_id x | None => [] end) l) else a
-                           | EvDel k' _ => if beq k k' then None else a
-                           | _ => a end) evs None.
-
   (* every index written in this exchange keeps the references it had before, except the one to the
      entry that was read (which may be replaced); if an entry was written under another key, the entry
      read is no longer referenced *)
@@ -506,9 +530,15 @@ Section Monitors2.
                                        in_names (fst kv) (spec_hop_by_hop (p_hdr nm)) ||
                                        match alookup (fst kv) (e_hdr e) with Some vs => forallb2_eq vs (snd kv) | None => false end)
                                     (sv_hdr s) in
+                    (* a 304 without a usable Date is dated by its receipt (RFC 9110 §6.6.1): the age restarts there *)
+                    let date_ok := match spec_time (hget (bs "Date") (p_hdr nm)) with
+                                   | Some _ => true
+                                   | None => beq (hget (bs "Date") (e_hdr e)) (format_imf_fixdate (b / second))
+                                   end in
                     if negb ((e_req_at e =? a) && (e_recv_at e =? b)) then VBad 2
                     else if negb fresh_ok then VBad 3
                     else if negb old_ok then VBad 4
+                    else if negb date_ok then VBad 5
                     else VOk
                 end
             | RErr => VNa
